@@ -31,7 +31,7 @@ def shards(tier):
 def gates(c, tier):
     out = []
     for k in ("outcome:messages", "outcome:wait", "outcome:ProtocolError", "part:random", "part:operator", "part:bytesub", "part:truncate", "part:valid-into-history", "part:large-bytewise",
-              "part:nest", "part:low-stack-headroom", "post-error-receive-refused", "post-error-send-refused", "response:notice-checked", "response:unbind-checked"):
+              "part:nest", "part:custom-type-refuses", "part:long-non-ascii-diagnostic", "pending-output-before-input", "part:low-stack-headroom", "post-error-receive-refused", "post-error-send-refused", "response:notice-checked", "response:unbind-checked"):
         if c.get(k, 0) == 0:
             out.append(f"never observed: {k}")
     cells = [k for k in c if k.startswith("cell:")]
@@ -82,6 +82,25 @@ def run_case(role, history, data: bytes, cuts, headroom=None):
     sess, ip = S.session_with(role, history)
     chunks = C.split(data, cuts)
     got_msgs = 0
+    if (len(data) + len(cuts)) % 2 == 0:
+        # something is queued for sending (and partly drained) when the input arrives: the bytes attached to an error
+        # must still be exactly one notice / unbind
+        try:
+            if role == "client":
+                sess.extended_request("1.2.840.113556.1.4.9999", b"queued-before-the-input")
+            else:
+                mid0 = sorted(ip)[0] if ip else 1
+                if ip.get(mid0) == "search":
+                    sess.search_result_entry(mid0, "cn=queued-before-the-input", [])
+                elif ip.get(mid0) == "bind":
+                    sess.bind_response(mid0, result_code=sl.LDAPResultCode.SASL_BIND_IN_PROGRESS, sasl_creds=b"queued")
+                else:
+                    sess.extended_response(mid0, value=b"queued-before-the-input")
+            if len(data) % 4 == 0:
+                sess.data_to_send(3)
+            obs["pending-output-before-input"] = 1
+        except sl.LDAPError:
+            pass
     for ci, ch in enumerate(chunks):
         # the caller may hand over bytes, a bytearray or a memoryview (and reuse its buffer afterwards)
         kind = (len(data) + ci) % 3
@@ -283,6 +302,31 @@ def _run_shard(ctx: Ctx, acc: Acc):
         for cut in range(len(data)):
             full = data[:cut] + nxt
             do("truncate", role, r.choice(S.HISTORIES), full, C.g_chunking(r, len(full), [cut]))
+    # (g) a registered custom control type that refuses a value (the way library types do, or with ProtocolError), in the
+    # first / a later PDU of a delivery
+    for j, exc_name in enumerate(["ValueError", "NotImplementedError", "ProtocolError", "RecursionError"]):
+        if j % ctx.nshards != ctx.shard % 4:
+            continue
+        r = ctx.rng("g", j)
+        for role in ROLES:
+            ok_ctl = (S.RAISING_CONTROL_OID, False, b"fine", None)
+            bad_ctl = (S.RAISING_CONTROL_OID, True, b"!refuse", None)
+            mk = (lambda c, i: rfc4511.encode(("ExtendedRequest", 50 + i, ("1.2.3", None), (c,)))) if role == "server" else (lambda c, i: rfc4511.encode(("SearchResultEntry", 1, ("cn=e%d" % i, ()), (c,))))
+            for data in (mk(bad_ctl, 0), mk(ok_ctl, 0) + mk(bad_ctl, 1), mk(ok_ctl, 0) + mk(ok_ctl, 1) + mk(bad_ctl, 2) + mk(ok_ctl, 3)):
+                for cuts in ([], [len(data) // 2], [5, len(data) - 3]):
+                    do("custom-type-refuses", role, "custom-raising:" + exc_name, data, cuts)
+    # (h) peer-supplied text that ends up in error messages / the notice: long and not ASCII, at every alignment
+    for j, size in enumerate([200, 300, 600, 1100, 2100, 4200, 8300, 66000]):
+        if j % ctx.nshards != ctx.shard % 8:
+            continue
+        for ch in ("\u00e9", "\u4e2d", "\U0001f600"):
+            for off in range(4):
+                diag = "a" * off + ch * (size // len(ch.encode("utf-8")))
+                for role in ROLES:
+                    data = rfc4511.encode(("ExtendedResponse", 0, ((52, "", diag, None), NOTICE_OID, None), ()))
+                    do("long-non-ascii-diagnostic", role, "opened-ops", data, [])
+                    data = rfc4511.encode(("SearchResultDone", 999, ((80, diag[:300], diag, None),), ()))
+                    do("long-non-ascii-diagnostic", role, "opened-ops", data, [])
     # (f) moderately nested input received with little stack headroom left by the application
     for j in range(24):
         if j % ctx.nshards != ctx.shard:
